@@ -206,6 +206,11 @@ theorem C13_wrapper_sites :
       "extract_until:recurse_child_tasks=recurse_child_tasks,with_contexts=with_contexts",
       "extract_until:recurse_child_tasks=recurse_child_tasks,with_contexts=with_contexts"] := by decide
 
+/-- The frame rule `C13_threads` is about one option cell per thread: the options object is a `threading.local` (re-read from
+the source on every run), and there is one module-level instance of it. -/
+theorem C13_options_thread_local :
+    SS.Gen.optionsBases = ["threading.local"] ∧ SS.Gen.optionsInstance = "ExtractOptions()" := by decide
+
 /-! #### BaseExceptions: not contained by an extraction, options restored all the same -/
 
 /-- A hook that raises a BaseException ends the extraction it runs under (the remaining hooks do not run), and the
